@@ -242,7 +242,7 @@ func constField(w *World, r *Report) {
 			}
 		}
 	}
-	r.floor("CONST", "modulo operations in T's methods", nrem, 4)
+	r.floor("CONST", "modulo operations in T's methods", nrem, 1)
 }
 
 func constGenerators(w *World, r *Report) {
